@@ -211,11 +211,10 @@ class RustCloneAnalyzer(RustBaseAnalyzer):
         if identifier is None:
             return False
 
-        block_node = _find_parent_block(let_node)
-        if block_node is None:
+        if _find_parent_block(let_node) is None:
             return False
 
-        return not _identifier_used_after(identifier, let_node, block_node)
+        return not _identifier_used_after_in_enclosing_blocks(identifier, let_node)
 
     def _get_clone_receiver_identifier(self, node: Node) -> str | None:
         """Extract the simple identifier being cloned.
@@ -329,6 +328,31 @@ def _identifier_used_after(identifier: str, let_node: Node, block_node: Node) ->
             continue
         if found_let and _node_contains_identifier(child, identifier):
             return True
+    return False
+
+
+def _identifier_used_after_in_enclosing_blocks(identifier: str, let_node: Node) -> bool:
+    """Check the let's own block and every enclosing block of the same function for a later use.
+
+    `if c { let b = a.clone(); g(b); } h(a);` uses `a` after the clone, in the enclosing block.
+
+    Args:
+        identifier: The variable name to search for
+        let_node: The let_declaration node
+
+    Returns:
+        True if identifier is referenced after the statement that holds the clone
+    """
+    anchor: Node = let_node
+    block = _find_parent_block(anchor)
+    while block is not None:
+        while anchor.parent is not None and anchor.parent.id != block.id:
+            anchor = anchor.parent  # the statement of this block that holds the clone
+        if _identifier_used_after(identifier, anchor, block):
+            return True
+        if block.parent is None or block.parent.type in ("function_item", "closure_expression"):
+            return False
+        anchor, block = block, _find_parent_block(block)
     return False
 
 
